@@ -161,27 +161,7 @@ func (c12) Gen(seed uint64, tier string) Case {
 	c.Late = genWriteOps(r, 9, r.Intn(5), []string{TypeA}, nids, &uniq, true)
 	c.ProbeAll = true
 	if r.Bool(0.6) {
-		sel := []Selector{
-			{Queries: [][]SelTerm{{{Key: "k", Op: "exists"}}}},
-			{Queries: [][]SelTerm{{{Key: "k", Op: "equal", Values: []string{"1"}}}}},
-			{Queries: [][]SelTerm{{{Key: "k", Op: "in", Values: []string{"0", "2"}}}}},
-			{Queries: [][]SelTerm{{{Key: "k", Op: "equal", Values: []string{"0"}, Invert: true}}}},
-			{Queries: [][]SelTerm{{{Key: "k", Op: "ltnum", Values: []string{"2"}}}}},
-		}[r.Intn(5)]
-		c.Filter = &sel
-		// more label churn, so that resources move into and out of the selection
-		for i := range c.Writers {
-			for j := range c.Writers[i] {
-				op := &c.Writers[i][j]
-				if op.Kind == "update" && op.Mut == "val" && r.Bool(0.4) {
-					if r.Bool(0.25) {
-						op.Mut = "unlabel:k"
-					} else {
-						op.Mut = fmt.Sprintf("label:k=%d", r.Intn(3))
-					}
-				}
-			}
-		}
+		c.Filter = simpleSelector(r, c.Writers)
 		for i := range c.Resumers {
 			if c.Resumers[i].Kind != "single" && r.Bool(0.5) {
 				c.Resumers[i].Filtered = true
@@ -292,6 +272,32 @@ type probe struct {
 	tail     *TailSpec
 	refIdx   int
 	filtered bool
+}
+
+// simpleSelector draws a label selector over the label key the writers churn (k in 0..2) and turns some plain updates of
+// the writers into label changes, so that resources move into and out of the selection.
+func simpleSelector(r *simrt.RNG, writers [][]WriteOp) *Selector {
+	sel := []Selector{
+		{Queries: [][]SelTerm{{{Key: "k", Op: "exists"}}}},
+		{Queries: [][]SelTerm{{{Key: "k", Op: "equal", Values: []string{"1"}}}}},
+		{Queries: [][]SelTerm{{{Key: "k", Op: "in", Values: []string{"0", "2"}}}}},
+		{Queries: [][]SelTerm{{{Key: "k", Op: "equal", Values: []string{"0"}, Invert: true}}}},
+		{Queries: [][]SelTerm{{{Key: "k", Op: "ltnum", Values: []string{"2"}}}}},
+		{IDRe: "r[01]"},
+	}[r.Intn(6)]
+	for i := range writers {
+		for j := range writers[i] {
+			op := &writers[i][j]
+			if op.Kind == "update" && op.Mut == "val" && r.Bool(0.4) {
+				if r.Bool(0.25) {
+					op.Mut = "unlabel:k"
+				} else {
+					op.Mut = fmt.Sprintf("label:k=%d", r.Intn(3))
+				}
+			}
+		}
+	}
+	return &sel
 }
 
 // matchEvents compares delivered data events with the expected ones (type, value, old value, bookmark = log position).
